@@ -43,6 +43,9 @@ def gen_cases(tier, seed):
         if fk == 'skew' and n == 1:
             continue
         cases.append(dict(F=fk, n=n, Q=qk, dt=dt, op=0, parts=4 if tier == 'quick' else 6))
+        if qk != 'zero' and n in (2, 9):
+            # tiny noise densities (a (1e-6)^2 gyro noise): small is not zero
+            cases.append(dict(F=fk, n=n, Q=qk, dt=dt, op=0, parts=4 if tier == 'quick' else 6, q_scale=1e-12))
         if fk in ('zero', 'nilpotent') and n in (2, 3, 9):
             # argument form: integer-typed F (as the library's own nilpotent test passes it)
             cases.append(dict(F=fk, n=n, Q=qk, dt=dt, op=0, parts=4 if tier == 'quick' else 6, int_F=True))
@@ -124,6 +127,7 @@ def build(case):
         Q = Q * 1e-6
     if qk in ('diag', 'dense', 'rank1') and not fk.startswith('ins'):
         Q = Q * 0.25                      # non-integer noise densities
+    Q = Q * case.get('q_scale', 1.0)
     if case.get('int_F'):
         F = F.astype(int)
     dt = case['dt']
